@@ -498,6 +498,18 @@ def check_item(acc, family, cfg, tree, transport, concrete):
       acc.sample({"family": family, "cfg": cfg, "tree": tree,
                   "transport": transport, "state_leaves": len(sig0[1])})
   # ---- concrete conformance ------------------------------------------
+  if concrete and transport == "batch" and family == "ds":
+    try:
+      nstats = sum(len(ps.statistics) for ps in
+                   jax.tree_util.tree_leaves(
+                       state.stats, is_leaf=lambda x: hasattr(x, "statistics")))
+    except Exception:  # pylint: disable=broad-except
+      nstats = 1
+    if nstats == 0:
+      # XLA's CPU compiler segfaults on the (collective-free) pmap program of
+      # an optimizer without any statistic; nothing of the library runs there
+      acc.outcome("concrete_pmap_skipped_no_statistics")
+      concrete = False
   if concrete:
     try:
       if transport == "batch":
